@@ -295,6 +295,35 @@ class ClassInfo(object):
         for c in reversed(self.mro()):
             # a class without own __init__ inherits; a class with own __init__ that calls super gets both
             out.update(c.own_init_attrs(model))
+        # an attribute a base-class __init__ stores from one of its parameters (``self._section = section``) holds, in a
+        # subclass, what that subclass passes up: super().__init__(metadata, "compose")
+        mro = self.mro()
+        for i, d in enumerate(mro):
+            init = d.methods.get("__init__")
+            if init is None:
+                continue
+            base = next((b for b in mro[i + 1:] if "__init__" in b.methods), None)
+            if base is None:
+                continue
+            call = None
+            for node in ast.walk(init):
+                if isinstance(node, ast.Call) and isinstance(node.func, ast.Attribute) and node.func.attr == "__init__":
+                    v = node.func.value
+                    if isinstance(v, ast.Call) and dotted(v.func) == "super":
+                        call = (node, 0)
+                    elif dotted(v) and model.resolve_name(d.module, dotted(v)) == ("class", base):
+                        call = (node, 1)
+            if call is None:
+                continue
+            node, skip = call
+            bparams = [a.arg for a in base.methods["__init__"].args.args][1:]
+            bound = dict(zip(bparams, node.args[skip:]))
+            for k in node.keywords:
+                if k.arg:
+                    bound[k.arg] = k.value
+            for a, ia in list(out.items()):
+                if ia.cls is base and isinstance(ia.value, ast.Name) and ia.value.id in bound and not isinstance(bound[ia.value.id], ast.Name):
+                    out[a] = InitAttr(a, bound[ia.value.id], node.lineno, d)
         return out
 
     def attr_class(self, model, attr):
